@@ -61,6 +61,8 @@ def fixed_cases(tier):
         out.append({"k": "bad_ids", "ids": dep[i : i + 8], "level": ["rule", "file_rules"][(i // 8) % 2]})
     out.append({"k": "bad_ids", "ids": ["bogus_001", "architecture_999", "global_001"], "level": "rule"})
     out.append({"k": "bad_ids", "ids": ["bogus_001", "entity_998"], "level": "file_rules"})
+    out.append({"k": "bad_ids", "ids": ["bogus_001", "port_999"] + dep[:3], "level": "file_rules+top"})
+    out.append({"k": "bad_ids", "ids": ["bogus_001", "port_999"] + dep[3:6], "level": "file_list+top"})
     return out
 
 
@@ -144,7 +146,7 @@ def _table(case, res):
     res["labels"]["table_rule_checks"] = n
     if len(lv) >= 2:
         res["nontrivial"] = ["t%s%d_%d" % (attr, mask, i) for i in range(n)]
-    if mask == 15 and attr == "disable":
+    if not bad:
         res["sample"] = {"kind": "table", "attr": attr, "levels": lv, "values_by_level": dict(zip(LEVELS, vals)), "rules_checked": n}
     return res
 
@@ -158,8 +160,12 @@ def _bad_ids(case, res):
     for rid in case["ids"]:
         if case["level"] == "rule":
             conf = {"rule": {rid: {"disable": True}}}
-        else:
+        elif case["level"] == "file_rules":
             conf = {"file_rules": [{fn: {"rule": {rid: {"disable": True}}}}]}
+        elif case["level"] == "file_rules+top":
+            conf = {"rule": {"entity_004": {"disable": False}, "global": {"indent_size": 2}}, "file_rules": [{fn: {"rule": {rid: {"disable": True}}}}]}
+        else:
+            conf = {"rule": {"entity_004": {"disable": False}}, "file_list": [{fn: {"rule": {rid: {"disable": True}}}}]}
         code, out, err, exc = vsgapi.run_cli(["-p", "1", "-f", fn, "-c"] + vsgapi.write_conf_files([conf]))
         n += 1
         msg = (out + err)
@@ -168,6 +174,8 @@ def _bad_ids(case, res):
         elif code != 1 or ("ERROR" not in msg and "Error" not in msg) or rid not in msg:
             res["failures"].append({"sig": {"kind": "bad_rule_id_not_reported", "level": case["level"], "deprecated": rid in _BASE.get("dep", [])}, "detail": {"id": rid, "exit": code, "output": msg[:300]}, "case": {"k": "bad_ids", "ids": [rid], "level": case["level"]}})
     res["evals"] = n
+    if not res["failures"]:
+        res["sample"] = {"kind": "bad_ids", "level": case["level"], "ids": case["ids"][:4], "outcome": "configuration error reported, exit status 1"}
     res["labels"]["bad_id_runs_" + case["level"]] = n
     res["nontrivial"] = [common.h("bad", rid, case["level"]) for rid in case["ids"]]
     return res
